@@ -38,9 +38,16 @@ def main():
         shutil.copy(demo, demo_dst)
         run = re.search(r"-run\s+(\S+)", meta.get("demo_cmd", ""))
         runpat = run.group(1) if run else "TestVerifSeed"
-        demo_cmd = f"go test -count=1 -run '{runpat}' ./{pkgdir}/"
+        tags = re.search(r"-tags[ =](\S+)", meta.get("demo_cmd", ""))
+        demo_cmd = f"go test {'-tags ' + tags.group(1) if tags else ''} -count=1 -run '{runpat}' ./{pkgdir}/"
         rc0, o0 = sh(demo_cmd, cwd=wt)
         out["demo_passes_without_change"] = rc0 == 0
+        # tests of the packages the patch touches that fail WITHOUT the change (docker-only tests, load-sensitive ones)
+        touched = sorted({"./" + os.path.dirname(l[6:].strip()) + "/" for l in open(os.path.join(src, "patch.diff")) if l.startswith("+++ b/") and l.strip().endswith(".go")})
+        os.rename(demo_dst, demo_dst + ".off")
+        _rcb0, ob0 = sh("go test -count=1 " + " ".join(touched) + " 2>&1 | grep -E '^--- FAIL' ", cwd=wt)
+        os.rename(demo_dst + ".off", demo_dst)
+        base_failing = {l.split()[2] for l in ob0.splitlines() if l.startswith("--- FAIL")}
         rc, o = sh(f"git apply {src}/patch.diff", cwd=wt)
         out["patch_applies"] = rc == 0
         if rc != 0:
@@ -56,9 +63,11 @@ def main():
         pkgs = sorted({"./" + os.path.dirname(f) + "/" for f in files.split() if f.endswith(".go")})
         os.remove(demo_dst)
         rct, ot = sh("go test -count=1 " + " ".join(pkgs) + " 2>&1 | tail -15", cwd=wt)
-        failing = [l for l in ot.splitlines() if l.startswith("FAIL") or l.startswith("--- FAIL")]
+        rct2, ot2 = sh("go test -count=1 " + " ".join(pkgs) + " 2>&1 | grep -E '^--- FAIL' ", cwd=wt)
+        failing = sorted({l.split()[2] for l in ot2.splitlines() if l.startswith("--- FAIL")} - base_failing)
         out["touched_packages"] = pkgs
         out["touched_package_tests_pass"] = not failing
+        out["tests_failing_without_the_change_too"] = sorted(base_failing)[:10]
         if failing:
             out["touched_package_test_failures"] = failing[:6]
         results = {}
@@ -72,11 +81,19 @@ def main():
             # a catch only counts if the saved case holds on the unchanged tree (replayed three times there)
             mrep = re.search(r"VIOLATION property=\S+ replay=(\S+)", oc)
             if rcc == 1 and mrep and os.path.exists(mrep.group(1)) and not os.path.basename(mrep.group(1)).startswith("fuzz-"):
+                # ... or fails there only with the signature of a recorded finding, different from the catch's own
+                try:
+                    caught_sig = json.load(open(mrep.group(1))).get("signature") or ""
+                except Exception:
+                    caught_sig = ""
+                known = {f["signature"] for f in json.load(open(os.path.join(ROOT, "known_findings.json")))["findings"] if f.get("status") == "open"}
                 fails = 0
                 for _ in range(3):
-                    rcr, _o = sh(f"./check {cid} --replay {mrep.group(1)}", cwd=ROOT)
-                    fails += rcr == 1
-                results[cid]["replay_on_unchanged_tree"] = f"{3 - fails}/3 hold"
+                    rcr, orr = sh(f"./check {cid} --replay {mrep.group(1)}", cwd=ROOT)
+                    sigs = set(re.findall(r'"signature":"([^"]*)"', orr))
+                    if rcr == 1 and not (sigs and sigs <= known and caught_sig not in sigs):
+                        fails += 1
+                results[cid]["replay_on_unchanged_tree"] = f"{3 - fails}/3 hold (failures with the signature of a recorded finding other than the catch's do not count)"
                 if fails:
                     results[cid]["verdict"] = "NOT-CONFIRMED (the saved case also fails on the unchanged tree)"
             print(pid, cid, verdict, results[cid]["failure"][:160])
